@@ -67,7 +67,9 @@ def make_values(shape, vk="f", base=1, nan=(), enc="coord"):
     for k, pos in enumerate(itertools.product(*[range(s) for s in shape])):
         c = cell_value(pos, shape, base)
         if enc == "nl":     # non-linear in the position along any axis (interpolation weights become visible)
-            c = ((k * k * 3 + k) % 19) + base + (0.25 * (k % 5) if vk == "f" else 0)
+            c = ((k * k * 3 + k) % 19) + base + (0.25 * (k % 5) if vk in ("f", "f4") else 0)
+        if enc == "big":      # magnitudes that single precision cannot hold exactly (odd numbers above 2**24)
+            c = 16777217 + 2 * k + 1000 * (base % 7)
         if enc == "small":
             c = (2 + k + base % 3) if vk == "i" else (1.25 + 0.125 * k + (base % 4) * 0.03125)   # never 1: pow(1, nan) == 1
         if vk == "O":
@@ -76,7 +78,9 @@ def make_values(shape, vk="f", base=1, nan=(), enc="coord"):
             out[pos] = bool((k * 7 + k // 3 + base) % 2)
         else:
             out[pos] = c
-    if nan and vk == "f":
+    if vk == "f4":       # single precision (all encoded values are exactly representable in it)
+        out = out.astype(np.float32)
+    if nan and vk in ("f", "f4"):
         flat = out.reshape(-1)
         for k in nan:
             if k < flat.size:
@@ -172,6 +176,16 @@ def build_impl(s):
             # and then relabelled IN PLACE through the public API (a.<dim> = labels on even dimensions, axis[i] = label on odd ones)
             old = [list(l[1:]) + list(l[:1]) for l in s["labels"]]
             a = DimArray(vals, axes=_axes(s, old))
+            # ... and under other dimension NAMES (the same names rotated by one), renamed in place afterwards with a.dims = (...)
+            if nd >= 2:
+                a.dims = tuple(s["dims"][1:]) + tuple(s["dims"][:1])
+            for i, ax in enumerate(a.axes):
+                try:
+                    a.sum(axis=ax.name); a.cumsum(axis=ax.name); a._get_axis_info(ax.name); a.axes[ax.name]
+                except Exception:
+                    pass
+            if nd >= 2:
+                a.dims = tuple(s["dims"])
             for i, ax in enumerate(a.axes):
                 try:
                     ax.is_monotonic()
